@@ -276,10 +276,107 @@ func execConc(t []string) string {
 	return "ok"
 }
 
+// tree renders the complete value tree through the public accessors, in the
+// canonical form of Spec.Encoding.renderPtr.
+func tree(sb *strings.Builder, p capnp.Ptr, err error) {
+	if err != nil {
+		sb.WriteString("E")
+		return
+	}
+	switch {
+	case !p.IsValid():
+		sb.WriteString("N")
+	case p.Struct().IsValid():
+		treeStruct(sb, p.Struct())
+	case p.List().IsValid():
+		l := p.List()
+		flags, ds, pc := capnp.VerifListInfo(l)
+		n := l.Len()
+		ek := 0
+		switch {
+		case flags == 1:
+			ek = 7
+		case flags == 2:
+			ek = 1
+		case pc == 1 && ds == 0:
+			ek = 6
+		case ds == 1:
+			ek = 2
+		case ds == 2:
+			ek = 3
+		case ds == 4:
+			ek = 4
+		case ds == 8:
+			ek = 5
+		}
+		sb.WriteString("L" + strconv.Itoa(ek) + "," + strconv.Itoa(n) + "[")
+		hexLE := func(v uint64, w int) {
+			for k := 0; k < w; k++ {
+				b := byte(v >> (8 * uint(k)))
+				sb.WriteByte(hexdigits[b>>4])
+				sb.WriteByte(hexdigits[b&15])
+			}
+		}
+		for i := 0; i < n; i++ {
+			switch ek {
+			case 7:
+				treeStruct(sb, l.Struct(i))
+			case 6:
+				q, err := capnp.PointerList{List: l}.At(i)
+				tree(sb, q, err)
+			case 1:
+				sb.WriteString(b01(capnp.BitList{List: l}.At(i)))
+			case 2:
+				hexLE(uint64(capnp.UInt8List{List: l}.At(i)), 1)
+			case 3:
+				hexLE(uint64(capnp.UInt16List{List: l}.At(i)), 2)
+			case 4:
+				hexLE(uint64(capnp.UInt32List{List: l}.At(i)), 4)
+			case 5:
+				hexLE(capnp.UInt64List{List: l}.At(i), 8)
+			}
+		}
+		sb.WriteString("]")
+	default:
+		sb.WriteString("C" + strconv.FormatUint(uint64(p.Interface().Capability()), 10))
+	}
+}
+
+func treeStruct(sb *strings.Builder, s capnp.Struct) {
+	sz := s.Size()
+	sb.WriteString("S{")
+	for k := 0; k < int(sz.DataSize); k++ {
+		v := s.Uint8(capnp.DataOffset(k))
+		sb.WriteByte(hexdigits[v>>4])
+		sb.WriteByte(hexdigits[v&15])
+	}
+	sb.WriteString("|")
+	for i := 0; i < int(sz.PointerCount); i++ {
+		q, err := s.Ptr(uint16(i))
+		tree(sb, q, err)
+	}
+	sb.WriteString("}")
+}
+
+func execTree(t []string) string {
+	segs, ok := parseSegs(t[1])
+	if !ok {
+		return "bad-op"
+	}
+	msg := &capnp.Message{Arena: capnp.MultiSegment(segs), TraverseLimit: 1 << 40, DepthLimit: 64}
+	root, err := msg.Root()
+	var sb strings.Builder
+	tree(&sb, root, err)
+	return sb.String()
+}
+
 // execRead: "read walk <T> <D> <segs>"
 func execRead(t []string) string {
 	if len(t) > 0 && t[0] == "conc" {
 		return execConc(t)
+	}
+	if len(t) == 2 && t[0] == "tree" {
+		return execTree(t)
 	}
 	if len(t) != 4 || t[0] != "walk" {
 		return "bad-op"
